@@ -240,6 +240,10 @@ class SimpleARTMAP(BaseARTMAP):
             The fitted model.
 
         """
+        if verbose:
+            # fail before the model is reset if the optional progress bar is missing
+            from tqdm import tqdm  # noqa: F401
+
         # Check that X and y have correct shape
         SimpleARTMAP.validate_data(self, X, y)
         # Store the classes seen during fit
